@@ -26,6 +26,7 @@ import (
 	"os"
 	"path/filepath"
 	"strings"
+	"sync"
 	"testing"
 	"time"
 
@@ -86,14 +87,15 @@ func (c10DNAT) AddEntry(*net.IP, uint16, *net.IP, uint16) error {
 //	    "U"  published bytes that the real pb.StationToDetector could not decode
 //	    "S"  the station's own lifetimes (read from the RegisteredDecoys the manager uses)
 type c10Rec struct {
-	T    string `json:"t"`
-	NS   uint64 `json:"ns,omitempty"`
-	ID   int    `json:"id,omitempty"`
-	Kind string `json:"kind,omitempty"` // new | update | clear
-	Case string `json:"case,omitempty"`
-	Tr   string `json:"tr,omitempty"`
-	Raw  string `json:"raw,omitempty"` // hex of the exact published bytes
-	Chan string `json:"chan,omitempty"`
+	T     string `json:"t"`
+	NS    uint64 `json:"ns,omitempty"`
+	ID    int    `json:"id,omitempty"`
+	Kind  string `json:"kind,omitempty"`  // new | update | dup | clear | shutdown-clear | stray
+	State string `json:"state,omitempty"` // unused | used: the registration's state on the station when the message was published
+	Case  string `json:"case,omitempty"`
+	Tr    string `json:"tr,omitempty"`
+	Raw   string `json:"raw,omitempty"` // hex of the exact published bytes
+	Chan  string `json:"chan,omitempty"`
 
 	// decoded message, nil = field absent on the wire
 	Phantom *string `json:"phantom"`
@@ -138,6 +140,9 @@ type c10Case struct {
 	secret    []byte
 	advBefore uint64
 	advUpdate uint64
+	advDup    uint64
+	dup1      int // redelivery before use: 0 none, 1 same registrant, 2 another registrant
+	dup2      int // redelivery after use
 }
 
 func (c *c10Case) String() string {
@@ -309,6 +314,13 @@ func (c *c10Case) gen_(r *rand.Rand, n int) {
 	c.update = r.Intn(100) < 60
 	c.advBefore = uint64(r.Int63n(int64(30 * time.Second)))
 	c.advUpdate = uint64(r.Int63n(int64(9 * time.Minute)))
+	c.advDup = uint64(r.Int63n(int64(2 * time.Minute)))
+	if r.Intn(100) < 30 {
+		c.dup1 = 1 + r.Intn(2)
+	}
+	if r.Intn(100) < 30 {
+		c.dup2 = 1 + r.Intn(2)
+	}
 }
 
 func (c *c10Case) wrapper() ([]byte, error) {
@@ -420,17 +432,20 @@ func TestVerifC10Announce(t *testing.T) {
 	emit(&c10Rec{T: "S", Unused: uint64(rd.timeoutUnused.Nanoseconds()), Active: uint64(rd.timeoutActive.Nanoseconds())})
 
 	nextID := 0
-	// record turns everything published since the last fr.Reset() into records for the registration reg (nil for
-	// Clear and for messages that belong to no admitted registration)
+	// recordPubs turns published messages into records for the registration reg in the given state (reg == nil
+	// for Clear and for messages that belong to no admitted registration).
+	//   kind: new | update | dup | clear | shutdown-clear | stray      state: unused | used | ""
 	published, sampled := 0, 0
-	record := func(kind string, cs *c10Case, reg *DecoyRegistration) int {
-		pubs := fr.Pubs()
-		fr.Reset()
+	recordPubs := func(pubs []kit.Pub, kind, state, desc string, cs *c10Case, reg *DecoyRegistration) int {
 		published += len(pubs)
-		base := c10Rec{Kind: kind}
+		base := c10Rec{Kind: kind, State: state, Case: desc}
 		if cs != nil {
-			base.Case, base.Tr = cs.String(), cs.tr
-			base.CClass, base.OvClass = cs.cclass, cs.ovclass
+			if desc == "" {
+				base.Case = cs.String()
+			} else {
+				base.Case = desc + " " + cs.String()
+			}
+			base.Tr, base.CClass, base.OvClass = cs.tr, cs.cclass, cs.ovclass
 		}
 		if reg != nil {
 			base.EPhantom = hex.EncodeToString(reg.PhantomIp)
@@ -440,13 +455,13 @@ func TestVerifC10Announce(t *testing.T) {
 			base.TrProto = int32(c10TrProto[cs.tr])
 			base.PClass = c10ClassOfIP(reg.PhantomIp)
 			base.PoClass = c10PortClass(reg.GetDstPort())
-			if kind == "new" {
-				base.ELife = uint64(rd.timeoutUnused.Nanoseconds())
-			} else {
+			if state == "used" {
 				base.ELife = uint64(rd.timeoutActive.Nanoseconds())
+			} else {
+				base.ELife = uint64(rd.timeoutUnused.Nanoseconds())
 			}
 		}
-		if len(pubs) == 0 && kind != "stray" {
+		if len(pubs) == 0 && kind != "stray" && kind != "dup" {
 			nextID++
 			r := base
 			r.T, r.ID = "X", nextID
@@ -478,12 +493,31 @@ func TestVerifC10Announce(t *testing.T) {
 			r.Unknown = len(m.ProtoReflect().GetUnknown())
 			emit(&r)
 			rec.Count("published_"+kind, 1)
-			if sampled < 2 && kind != "clear" {
+			if sampled < 2 && kind == "new" {
 				sampled++
 				rec.Sample(map[string]interface{}{"case": r.Case, "kind": kind, "published_hex": r.Raw, "decoded": m.String()})
 			}
 		}
 		return len(pubs)
+	}
+	// record: everything published since the last fr.Reset()
+	record := func(kind, state, desc string, cs *c10Case, reg *DecoyRegistration) int {
+		pubs := fr.Pubs()
+		fr.Reset()
+		return recordPubs(pubs, kind, state, desc, cs, reg)
+	}
+
+	// what the driver knows about every registration the station tracks as valid
+	type c10Info struct {
+		cs   c10Case
+		used bool // MarkActive was called for it (the only way a registration becomes "used")
+	}
+	info := map[*DecoyRegistration]*c10Info{}
+	stateOf := func(i *c10Info) string {
+		if i.used {
+			return "used"
+		}
+		return "unused"
 	}
 
 	rng := kit.Rand("c10-announce")
@@ -494,21 +528,61 @@ func TestVerifC10Announce(t *testing.T) {
 	doClear := func() {
 		fr.Reset()
 		rm.Cleanup() // the real shutdown path: cmd/application defers regManager.Cleanup()
-		record("clear", nil, nil)
+		record("clear", "", "", nil, nil)
 		clears++
 		sinceClear = 0
 		emit(&c10Rec{T: "R"})
 	}
-	for admitted < target && attempts < 6*target {
-		attempts++
-		var cs c10Case
-		cs.gen_(rng, attempts)
-		rec.CaseCheap(cs.String())
+
+	// ingestOne hands one registration object built by parseRegMessage to the real ingestRegistration and records
+	// what was published because of it.  A delivery for a registration that is already tracked is judged against
+	// the TRACKED registration (its registrant, phantom, port) in its CURRENT state.
+	ingestOne := func(cs *c10Case, desc string, reg *DecoyRegistration) *DecoyRegistration {
+		tracked := rd.RegistrationExists(reg)
+		fr.Reset()
+		rm.ingestRegistration(reg)
+		if tracked != nil && tracked != reg {
+			rec.Count("duplicate_deliveries", 1)
+			if ti := info[tracked]; ti != nil {
+				st := stateOf(ti)
+				label := "natural"
+				if desc != "" {
+					label = strings.SplitN(desc, "=", 2)[0]
+				}
+				rec.Count("duplicate_deliveries_"+st+"_"+label, 1)
+				if n := record("dup", st, desc, &ti.cs, tracked); n > 0 {
+					rec.Count("duplicate_deliveries_that_published", 1)
+				}
+			} else if fr.Len() != 0 {
+				record("stray", "", desc, cs, nil)
+			}
+			return nil
+		}
+		rd.m.RLock()
+		valid := reg.Valid
+		rd.m.RUnlock()
+		if !valid {
+			rec.Count("not_admitted", 1)
+			if fr.Len() != 0 {
+				record("stray", "", desc, cs, nil)
+			}
+			return nil
+		}
+		admitted++
+		sinceClear++
+		info[reg] = &c10Info{cs: *cs}
+		rec.Count("admitted", 1)
+		rec.Count("admitted_"+cs.tr, 1)
+		rec.Distinct("admitted_classes", cs.tr, c10ClassOfIP(reg.PhantomIp), cs.cclass, c10PortClass(reg.GetDstPort()), cs.ovclass != "none")
+		record("new", "unused", desc, cs, reg)
+		return reg
+	}
+	// deliver parses one wrapper and ingests every registration built from it
+	deliver := func(cs *c10Case, desc string) (adm []*DecoyRegistration) {
 		msg, err := cs.wrapper()
 		if err != nil {
 			t.Fatalf("infrastructure: marshal: %v", err)
 		}
-		emit(&c10Rec{T: "A", NS: cs.advBefore})
 		fr.Reset()
 		regs, err := rm.parseRegMessage(msg)
 		if err != nil {
@@ -519,42 +593,73 @@ func TestVerifC10Announce(t *testing.T) {
 			default:
 				rec.Count("refused_other", 1)
 			}
-			if fr.Len() != 0 {
-				// nothing is demanded about refused registrations, but whatever was published must still parse
-				record("stray", &cs, nil)
-			}
-			continue
 		}
-		if len(regs) == 0 {
+		if fr.Len() != 0 {
+			// nothing is demanded about refused registrations, but whatever was published must still parse
+			record("stray", "", desc, cs, nil)
+		}
+		if len(regs) == 0 && err == nil {
 			rec.Count("no_registration_built", 1)
 		}
 		for _, reg := range regs {
 			if reg == nil {
 				continue
 			}
-			fr.Reset()
-			rm.ingestRegistration(reg)
-			rd.m.RLock()
-			valid := reg.Valid
-			rd.m.RUnlock()
-			if !valid {
-				rec.Count("not_admitted", 1)
-				if fr.Len() != 0 {
-					record("stray", &cs, nil)
-				}
-				continue
+			if a := ingestOne(cs, desc, reg); a != nil {
+				adm = append(adm, a)
 			}
-			admitted++
-			sinceClear++
-			rec.Count("admitted", 1)
-			rec.Count("admitted_"+cs.tr, 1)
-			rec.Distinct("admitted_classes", cs.tr, c10ClassOfIP(reg.PhantomIp), cs.cclass, c10PortClass(reg.GetDstPort()), cs.ovclass != "none")
-			record("new", &cs, reg)
-			if cs.update {
-				emit(&c10Rec{T: "A", NS: cs.advUpdate})
+		}
+		return adm
+	}
+	// redeliver sends the same registration (secret, transport, parameters, overrides => same phantom and
+	// identifier) again, from the same or from another client address of the same class
+	redeliver := func(cs *c10Case, how int, desc string) {
+		d := *cs
+		if how == 2 {
+			for tries := 0; tries < 20; tries++ {
+				var a net.IP
+				switch cs.cclass {
+				case "v4":
+					a = c10RandV4(rng)
+				case "v4mapped":
+					a = c10RandV4(rng).To16()
+				default: // v6, and absent / all-zero (an IPv6 address builds the same registrations as no address)
+					a = c10RandV6(rng)
+				}
+				if !a.Equal(net.IP(cs.registr)) {
+					d.registr = a
+					break
+				}
+			}
+			desc += ":other-registrant=" + hex.EncodeToString(d.registr)
+		} else {
+			desc += ":same-registrant"
+		}
+		emit(&c10Rec{T: "A", NS: cs.advDup})
+		deliver(&d, desc)
+	}
+
+	for admitted < target && attempts < 6*target {
+		attempts++
+		var cs c10Case
+		cs.gen_(rng, attempts)
+		rec.CaseCheap(cs.String())
+		emit(&c10Rec{T: "A", NS: cs.advBefore})
+		adm := deliver(&cs, "")
+		if len(adm) > 0 && cs.dup1 != 0 {
+			redeliver(&cs, cs.dup1, "redelivery-before-use")
+		}
+		if cs.update {
+			emit(&c10Rec{T: "A", NS: cs.advUpdate})
+			for _, reg := range adm {
+				fr.Reset()
 				rm.MarkActive(reg) // what the connection handlers call on the first valid connection
+				info[reg].used = true
 				rec.Count("activated", 1)
-				record("update", &cs, reg)
+				record("update", "used", "", &cs, reg)
+			}
+			if len(adm) > 0 && cs.dup2 != 0 {
+				redeliver(&cs, cs.dup2, "redelivery-after-use")
 			}
 		}
 		if sinceClear >= clearEvery {
@@ -566,10 +671,131 @@ func TestVerifC10Announce(t *testing.T) {
 	}
 	rec.Count("attempts", attempts)
 	rec.Count("clears", clears)
-	rec.Count("published_total", published)
 	if admitted < target {
 		t.Fatalf("infrastructure: only %d of %d registrations were admitted in %d attempts", admitted, target, attempts)
 	}
+
+	// ---- the station's real shutdown order (cmd/application/main.go): registrations arrive through the ingest
+	// channel of a running HandleRegUpdates; then cancel(), wg.Wait(), and only then the deferred Cleanup().
+	rm.IngestWorkerCount = 3
+	waitIdle := func(regChan chan interface{}) bool {
+		// idle = nothing queued, the distributor and every worker parked in their select (no sleeps decide
+		// anything: this only waits, with a generous bound, for the asynchronous workers to finish)
+		deadline := time.Now().Add(60 * time.Second)
+		sleep := 100 * time.Microsecond
+		for {
+			idle := len(regChan) == 0
+			if idle {
+				nd, nw := 0, 0
+				for _, g := range kit.InFunc(kit.Stacks(), "HandleRegUpdates", "startIngestThread") {
+					switch {
+					case g.State != "select":
+						idle = false
+					case len(g.Frames) > 0 && strings.Contains(g.Frames[0], "startIngestThread"):
+						nw++
+					case len(g.Frames) > 0 && strings.Contains(g.Frames[0], "HandleRegUpdates"):
+						nd++
+					default:
+						idle = false
+					}
+				}
+				if nd != 1 || nw != rm.IngestWorkerCount {
+					idle = false
+				}
+			}
+			if idle {
+				return true
+			}
+			if time.Now().After(deadline) {
+				return false
+			}
+			time.Sleep(sleep)
+			if sleep < 5*time.Millisecond {
+				sleep *= 2
+			}
+		}
+	}
+	lifecycles := kit.Tier(4, 25)
+lifecycle:
+	for ep := 0; ep < lifecycles; ep++ {
+		ctx, cancel := context.WithCancel(context.Background())
+		regChan := make(chan interface{}, 4)
+		var wg sync.WaitGroup
+		wg.Add(1)
+		go rm.HandleRegUpdates(ctx, regChan, &wg)
+		if !waitIdle(regChan) {
+			rec.Inconclusive("lifecycle: ingest workers did not come up", ep)
+			cancel()
+			break
+		}
+		viaChan := 0
+		for tries := 0; tries < 60 && viaChan < 5; tries++ {
+			attempts++
+			var cs c10Case
+			cs.gen_(rng, attempts)
+			// one family per message, so that at most one registration (and one announcement) results
+			if cs.v4s && cs.v6s {
+				cs.v4s = tries%2 == 0
+				cs.v6s = !cs.v4s
+			}
+			desc := fmt.Sprintf("lifecycle#%d:via-ingest-channel", ep)
+			rec.CaseCheap(desc + " " + cs.String())
+			msg, err := cs.wrapper()
+			if err != nil {
+				t.Fatalf("infrastructure: marshal: %v", err)
+			}
+			emit(&c10Rec{T: "A", NS: cs.advBefore})
+			fr.Reset()
+			regChan <- msg
+			if !waitIdle(regChan) {
+				rec.Inconclusive("lifecycle: ingest workers did not become idle", desc)
+				cancel()
+				break lifecycle
+			}
+			// find the registration the worker built: a twin object leads to the tracked one
+			twins, err := rm.parseRegMessage(msg)
+			var reg *DecoyRegistration
+			if err == nil && len(twins) == 1 && twins[0] != nil {
+				if tr := rd.RegistrationExists(twins[0]); tr != nil && info[tr] == nil {
+					rd.m.RLock()
+					valid := tr.Valid
+					rd.m.RUnlock()
+					if valid {
+						reg = tr
+					}
+				}
+			}
+			if reg == nil {
+				if fr.Len() != 0 {
+					record("stray", "", desc, &cs, nil)
+				}
+				continue
+			}
+			viaChan++
+			admitted++
+			info[reg] = &c10Info{cs: cs}
+			rec.Count("admitted_via_ingest_channel", 1)
+			record("new", "unused", desc, &cs, reg)
+		}
+		cancel()
+		done := make(chan struct{})
+		go func() { wg.Wait(); close(done) }()
+		select {
+		case <-done:
+		case <-time.After(60 * time.Second):
+			// main() would still sit in wg.Wait() and never reach the deferred Cleanup; whether HandleRegUpdates
+			// winds down is another property's business
+			rec.Inconclusive("lifecycle: HandleRegUpdates did not return within 60 s after cancel", ep)
+			break lifecycle
+		}
+		fr.Reset()
+		rm.Cleanup()
+		// the publication is synchronous: after Cleanup has returned the Clear is at the server or it never will be
+		record("shutdown-clear", "", fmt.Sprintf("lifecycle#%d: HandleRegUpdates(ctx) running, %d registrations admitted through the ingest channel, cancel(), wg.Wait(), Cleanup()", ep, viaChan), nil, nil)
+		rec.Count("shutdown_lifecycles", 1)
+		emit(&c10Rec{T: "R"})
+	}
+	rec.Count("published_total", published)
 	// the connecting-transport goroutines started by ingest must be gone before the process ends
 	if left := kit.WaitNoGoroutineIn(30*time.Second, "handleConnectingTpReg"); left != nil {
 		rec.Inconclusive("goroutines still inside handleConnectingTpReg at the end of the run", len(left))
